@@ -77,7 +77,7 @@ where
     if w.desc.slices.iter().any(|s| s.2 != 1) {
         cx.stats.probe("view_stepped_or_reversed");
     }
-    if w.idx.len() < w.parent.len() {
+    if w.idx.len() < w.parent_len() {
         cx.stats.probe("view_has_guard_cells");
     }
     for (k, op) in scn.ops.iter().enumerate() {
@@ -95,8 +95,14 @@ where
             }
             _ => {}
         }
-        for x in w.parent.iter() {
+        for x in w.parent_cells().iter() {
             cx.dg.evi(x.to_raw());
+        }
+        if prop == Prop::C03 {
+            if let Some(d) = w.padding_damage() {
+                cx.fail("wrote-outside-parent", format!("{}: {}", op.name, d));
+                break;
+            }
         }
     }
     cx.finish()
